@@ -46,14 +46,20 @@ def _dump(payload, sub):
     from dataflows import Flow, dump_to_path, dump_to_zip, filter_rows
     from ..core.ctx import jsonable
     links = []
-    for t in payload['tables']:
-        links.append(T.rows_of(t))
-    for i in payload.get('empty') or []:
+    if payload.get('redump_from'):
+        # the data comes from a package dumped earlier (its descriptor already carries that dump's counters)
+        from dataflows import load
+        src = payload['redump_from']
+        links.append(load(src, format='datapackage') if src.endswith('.zip') else load(os.path.join(src, 'datapackage.json')))
+    else:
+        for t in payload['tables']:
+            links.append(T.rows_of(t))
+    for i in (payload.get('empty') or []) if not payload.get('redump_from') else []:
         # an empty resource that still has a schema: filter everything out of resource i
         links.append(filter_rows(lambda row: False, resources=i))
     opts = dict(payload['opts'])
     cor = payload.get('corrupt') or []
-    if cor:
+    if cor and not payload.get('redump_from'):
         # invalid lexical values arriving at the dumper (let through upstream by on_error=ignore); the dumper's own
         # validator is told to drop them: dropped rows are not written and must not be counted
         from dataflows import set_type, schema_validator
@@ -117,7 +123,7 @@ class C09(Prop):
     ASSUMPTIONS = ['number of data rows of a csv file = records parsed by the stdlib csv module minus the header; of a json file = length of the top-level array',
                    'package totals are compared with the sums over the resources recorded in the same written descriptor']
     REAL_VS_STUB = {'real': ['dataflows dumpers, csv/json writers, zipfile, the file system'], 'stub': ['ambient environment (TZ, umask, cwd, tempdir) set per dump']}
-    PROBES = ['zip-target', 'json-format', 'counters-renamed', 'counters-dotted', 'counter-disabled', 'filehash-in-path', 'empty-resource', 'multibyte-text', 'compact-descriptor', 'dumper-drops-invalid-rows']
+    PROBES = ['zip-target', 'json-format', 'counters-renamed', 'counters-dotted', 'counter-disabled', 'filehash-in-path', 'empty-resource', 'multibyte-text', 'compact-descriptor', 'dumper-drops-invalid-rows', 're-dump-of-a-loaded-package']
     TIERS = {'quick': dict(runs=700, wall=100, run_wall=120),
              'thorough': dict(runs=20000, wall=1700, run_wall=300)}
     SHRINK_FROZEN = ('fields',)
@@ -156,7 +162,7 @@ class C09(Prop):
                 if ints and t['rows'] and ti not in empty:
                     for _ in range(rng.randrange(1, 3)):
                         corrupt.append([ti, rng.randrange(len(t['rows'])), rng.choice(ints)])
-        return {'tables': tabs, 'empty': empty, 'opts': opts, 'corrupt': corrupt, 'target': rng.choice(['path', 'path', 'zip']),
+        return {'tables': tabs, 'empty': empty, 'opts': opts, 'corrupt': corrupt, 'redump': rng.random() < 0.3 and opts['format'] == 'csv', 'target': rng.choice(['path', 'path', 'zip']),
                 'env2': {'tz': rng.choice(['UTC', 'America/New_York', 'Asia/Kolkata', 'Pacific/Chatham']), 'umask': rng.choice([0o022, 0o077, 0o002]), 'cwd': 'elsewhere', 'tmp': 'othertmp'}}
 
     def execute(self, sc, ctx):
@@ -244,6 +250,29 @@ class C09(Prop):
                     ctx.violation('stats-vs-descriptor', key, 'process() returned stats[%r]=%r, the written descriptor records %s=%r (descriptor file itself: %d bytes); %s' % (
                         key, stats.get(key), counters[cname], want, desc_size, desc_s), stat_key=key, stat=stats.get(key), recorded=want, desc_size=desc_size)
             results.append((res_hashes, ph))
+        if sc.get('redump') and not sc.get('corrupt') and not opts.get('add_filehash_to_path'):
+            ctx.probe('re-dump-of-a-loaded-package')
+            d = os.path.join(ctx.scratch, 'd2')
+            os.makedirs(d)
+            os.chdir(d)
+            src = os.path.join(ctx.scratch, 'd0', 'out' if target == 'path' else 'out.zip')
+            out = os.path.join(d, 'out' if target == 'path' else 'out.zip')
+            r = ctx.subrun(_dump, {'tables': sc['tables'], 'opts': opts, 'target': target, 'out': out, 'redump_from': src})
+            if r['status'] == 'ok':
+                desc, rd, ex, desc_size = read_package(target, out)
+                for res in desc['resources']:
+                    path = res['path'] if not isinstance(res['path'], list) else res['path'][0]
+                    if not ex(path):
+                        ctx.violation('path-points-at-file', 'missing', 're-dump of a loaded package: recorded path %r does not exist; %s' % (path, desc_s), redump=True)
+                    data = rd(path)
+                    rb, rc = get_attr(res, counters['resource-bytes']), get_attr(res, counters['resource-rowcount'])
+                    rh = get_attr(res, counters['resource-hash'])
+                    if counters['resource-bytes'] and rb != len(data):
+                        ctx.violation('bytes', 'resource-redump', 're-dump of a loaded package: resource %r records %s=%r, the file has %d bytes; %s' % (res['name'], counters['resource-bytes'], rb, len(data), desc_s), redump=True)
+                    if counters['resource-rowcount'] and rc != count_rows(fmt, data):
+                        ctx.violation('rowcount', 'resource-redump', 're-dump of a loaded package: resource %r records %s=%r, the file has %d data rows; %s' % (res['name'], counters['resource-rowcount'], rc, count_rows(fmt, data), desc_s), redump=True)
+                    if counters['resource-hash'] and rh != hashlib.md5(data).hexdigest():
+                        ctx.violation('hash', 'resource-redump', 're-dump of a loaded package: resource %r records a hash that is not the md5 of the file; %s' % (res['name'], desc_s), redump=True)
         if results[0] != results[1]:
             ctx.violation('repeatable-hash', 'differ', 'dumping the same data twice gave different hashes: %r vs %r (second dump under %r); %s' % (results[0], results[1], sc.get('env2'), desc_s))
         if any(t['rows'] for t in sc['tables']):
